@@ -60,6 +60,34 @@ fn main() {
         repos.push(("r_ambiguous".to_string(), r));
     }
     let any_cwd = vec![root.join("sibling"), PathBuf::from("/"), repos[0].1.dir.clone()];
+    // "loaded" start directories: files that tools commonly pick up from the directory a process is started in (or an ancestor of
+    // it) - dotenv files that redirect git, switch on logging or move the clock / time zone, configuration-file candidates in
+    // every usual spelling, version files, and a sub-directory of an unrelated repository. None of them is zerv input.
+    let loaded: Vec<PathBuf> = {
+        let other_git = repos[1].1.dir.join(".git");
+        let mut v = vec![];
+        let mk = |name: &str, files: &[(&str, String)]| -> PathBuf {
+            let top = root.join(name);
+            let d = top.join("sub").join("dir");
+            std::fs::create_dir_all(&d).unwrap_or_else(|e| machinery_error(&format!("loaded dir: {e}")));
+            for (f, body) in files { for at in [&top, &d] { let p = at.join(f); if let Some(pp) = p.parent() { let _ = std::fs::create_dir_all(pp); } std::fs::write(&p, body).unwrap_or_else(|e| machinery_error(&format!("loaded file: {e}"))); } }
+            d
+        };
+        v.push(mk("loaded_env_git", &[(".env", format!("GIT_DIR={}\nGIT_WORK_TREE={}\n", other_git.display(), repos[1].1.dir.display()))]));
+        v.push(mk("loaded_env_log", &[(".env", "RUST_LOG=trace\nRUST_BACKTRACE=1\n".to_string()), (".env.local", "RUST_LOG=zerv=debug\n".to_string())]));
+        v.push(mk("loaded_env_clock", &[(".env", "TZ=Asia/Tokyo\nSOURCE_DATE_EPOCH=86400\nZERV_FORCE_RUST_LOG_OFF=1\nLC_ALL=de_DE.UTF-8\nPAGER=cat\nGIT_CONFIG_COUNT=1\nGIT_CONFIG_KEY_0=core.bare\nGIT_CONFIG_VALUE_0=true\n".to_string())]));
+        let toml = "schema = \"calver\"\noutput_format = \"pep440\"\noutput-format = \"pep440\"\noutput_prefix = \"v\"\nsource = \"none\"\ntag_version = \"9.9.9\"\n[version]\nschema = \"calver\"\noutput_format = \"pep440\"\n[flow]\nschema = \"standard-context\"\npre_release_label = \"rc\"\n[tool.zerv]\nschema = \"calver\"\noutput_format = \"pep440\"\n[package.metadata.zerv]\nschema = \"calver\"\n".to_string();
+        let ron = "(schema: \"calver\", output_format: \"pep440\", output_prefix: \"v\")".to_string();
+        let jsn = "{\"schema\": \"calver\", \"output_format\": \"pep440\", \"zerv\": {\"schema\": \"calver\"}}".to_string();
+        v.push(mk("loaded_cfg", &[("zerv.toml", toml.clone()), (".zerv.toml", toml.clone()), (".zervrc", toml.clone()), ("zerv.ron", ron.clone()), (".zerv.ron", ron), ("zerv.json", jsn.clone()), (".zerv.json", jsn.clone()), ("zerv.yaml", "schema: calver\noutput_format: pep440\n".to_string()),
+            (".config/zerv/config.toml", toml.clone()), (".config/zerv.toml", toml.clone()), ("pyproject.toml", toml.clone()), ("Cargo.toml", toml.clone()), ("setup.cfg", "[zerv]\nschema = calver\n".to_string()), ("package.json", jsn),
+            ("VERSION", "9.9.9\n".to_string()), ("version.txt", "9.9.9\n".to_string()), (".tool-versions", "zerv 0.0.1\n".to_string()), (".gitconfig", "[core]\n\tbare = true\n".to_string())]));
+        let inner = repos[2 % repos.len()].1.dir.join("sub_of_other_repo");
+        let _ = std::fs::create_dir_all(&inner);
+        // (an untracked directory is invisible to the repository that holds it: empty directories are not status entries)
+        v.push(inner);
+        v
+    };
     let mut jobs: Vec<Job> = vec![];
     // presets x {clean, ahead, dirty} via source none, both formats; calver expectations from R-CAL at a midnight-straddling timestamp
     let presets: Vec<&str> = zv::STANDARD_PRESETS.iter().chain(zv::CALVER_PRESETS.iter()).copied().collect();
@@ -158,6 +186,20 @@ fn main() {
                     format!("reference (UTC,C): exit {} {:?} / here: exit {} {:?} stderr {:?}", reference.status, truncate(&reference.stdout_str(), 120), o.status, truncate(&o.stdout_str(), 120), truncate(&o.stderr_str(), 120)));
             }
         }}}}}
+        // loaded start directories (see above): the same answer, byte for byte, on all three streams; for the git jobs only with an
+        // absolute -C (they all are), and one run with XDG_CONFIG_HOME pointing into the configuration-file directory
+        if job.cwds.len() > 1 || job.stdin.is_some() || job.args.iter().any(|x| x == "none") {
+            for (li, cwd) in loaded.iter().enumerate() {
+                // the last one lies inside another repository: jobs that take their repository from the start directory are not comparable
+                st.inc("process_runs"); st.inc("loaded_start_directory_runs");
+                let o = run_env(job, "UTC", "C", cwd, 0, now);
+                if o != reference {
+                    let what = if o.stdout != reference.stdout { "stdout" } else if o.status != reference.status { "status" } else { "stderr" };
+                    ctx.violation(&format!("{what}_depends_on_files_in_start_directory"), format!("{} {} [cwd=loaded#{li} {}]", job.label, job.args.join(" "), cwd.display()), case.clone(),
+                        format!("reference: exit {} {:?} / here: exit {} {:?} stderr {:?}", reference.status, truncate(&reference.stdout_str(), 120), o.status, truncate(&o.stdout_str(), 120), truncate(&o.stderr_str(), 160)));
+                }
+            }
+        }
         // second clock value: identical unless the input is clock dependent; then only timestamp-derived text may differ
         st.inc("second_clock_runs");
         let o2 = run_env(job, "Pacific/Kiritimati", "C", &job.cwds[0], 0, now2);
